@@ -917,6 +917,9 @@ impl SortedWritesTable {
                                         unsafe {
                                             let _was_stale = read_handle.set_stale_shared(occ.get().row);
                                             debug_assert!(!_was_stale);
+                                            // `cur_row` holds the raw incoming row; the value to
+                                            // keep is the merged row in `scratch`.
+                                            read_handle.overwrite_row_shared(cur_row, &scratch);
                                         }
                                         occ.get_mut().row = cur_row;
                                         changed = true;
